@@ -506,7 +506,9 @@ class Evaluator:
                 if f.is_property:
                     return self.call(FuncVal(self, f, bound=obj, defcls=c), [], {})
                 if f.is_static:
-                    return FuncVal(self, f, defcls=c)
+                    fv = FuncVal(self, f, defcls=c)
+                    fv.via = obj  # the instance the static method was fetched from (provenance only)
+                    return fv
                 if f.is_classmethod:
                     return FuncVal(self, f, bound=ClassVal(self, cinfo), defcls=c)
                 return FuncVal(self, f, bound=obj, defcls=c)
